@@ -149,7 +149,7 @@ def _value(rng, kind, nodes, class_nodes=None):
             return lit(rng.choice(["caf\u00e9 %d", "\u6771\u4eac %d", "na\u00efve v%d", "two words %d"]) % rng.randrange(10), XSD + "string")
         return lit("v%d" % rng.randrange(40), XSD + "string")
     if kind == "int":
-        return lit(str(rng.randrange(100)), XSD + "integer")
+        return lit(str(rng.randrange(-15, 100)), XSD + "integer")      # negative values too
     if kind == "lang":
         return lit("w%d" % rng.randrange(40), None, rng.choice(["en", "es"]))
     if kind == "date":
@@ -175,6 +175,8 @@ def gen_graph(rng, n_nodes=8, n_classes=3, n_props=4, bnodes=False,
     if rng.random() < odd_classes:
         # valid class IRIs whose local name is not a plain word (shape labels are derived from it)
         classes = [EX + rng.choice(["C%d,x", "Cafe\u0301%d"]) % i for i in range(n_classes)]    # comma; 'e' + combining acute (not NFC)
+    elif n_classes >= 2 and rng.random() < odd_classes / 2:
+        classes[1] = EX + "c0"      # two classes whose IRIs differ only in letter case (C0 / c0)
     if same_local_classes and n_classes >= 2 and rng.random() < same_local_classes:
         # two classes of different vocabularies that share their local name (foaf:Person / schema:Person)
         classes[1] = OTHER + classes[0][len(EX):]
